@@ -24,7 +24,7 @@ import re
 import urllib.parse
 
 from simkit import world
-from simkit.sim import cur_sim
+from simkit.sim import Violation, cur_sim
 from simkit.transport import raw
 
 from . import storesim, wiresim
@@ -63,7 +63,7 @@ ASSUMPTIONS = [
     "returned value there (failed reads and has()=False leak nothing and are not judged; the logged path alone is not trusted: e.g. '..#x' is logged one level up but is a literal name for the store)",
     "independent of any path arithmetic: no response (args or body) contains the marker bytes, the secret branch's revision id, the unguessable secret file name or the sibling directory's content (the client never sends these)",
     "ControlDir.open from inside a request on a transport that is not a clone of the backing transport must raise JailBreak (probed with the store's own URL of /secret/br, of /served/br, and '..' clones)",
-    "any response is acceptable otherwise: errors, protocol errors, a dropped connection, results about locations inside /served (the hostile client may destroy /served)",
+    "any response is acceptable otherwise: errors, protocol errors, a dropped connection, no answer at all (counted as response_never_arrived; stalls belong to C29/C30), results about locations inside /served (the hostile client may destroy /served)",
     "user-directory expansion entries pointing outside the served directory or containing '..' model a hostile/misconfigured account database; they are part of the configuration space, not of the client alphabet, "
     "and are reported with their own signature if they escape",
     "v1/v2 requests are only generated for VFS verbs whose response has no body and never carry \\x01 or \\n in arguments (the framing is not claimed to carry them; wire-level properties are C29/C30)",
@@ -533,6 +533,32 @@ def _watch_class():
             note(self, "readv", relpath, list(r))
             return iter(r)
 
+        # TransportDecorator leaves these to the generic Transport implementations
+        # (copy + delete ...); a pass-through must hand them to the decorated transport
+        def move(self, rel_from, rel_to):
+            return self._decorated.move(rel_from, rel_to)
+
+        def copy(self, rel_from, rel_to):
+            return self._decorated.copy(rel_from, rel_to)
+
+        def put_bytes_non_atomic(self, relpath, raw_bytes, mode=None, create_parent_dir=False, dir_mode=None):
+            return self._decorated.put_bytes_non_atomic(relpath, raw_bytes, mode=mode, create_parent_dir=create_parent_dir, dir_mode=dir_mode)
+
+        def put_file_non_atomic(self, relpath, f, mode=None, create_parent_dir=False, dir_mode=None):
+            return self._decorated.put_file_non_atomic(relpath, f, mode=mode, create_parent_dir=create_parent_dir, dir_mode=dir_mode)
+
+        def local_abspath(self, relpath):
+            return self._decorated.local_abspath(relpath)
+
+        def symlink(self, source, link_name):
+            return self._decorated.symlink(source, link_name)
+
+        def readlink(self, relpath):
+            return self._decorated.readlink(relpath)
+
+        def hardlink(self, source, link_name):
+            return self._decorated.hardlink(source, link_name)
+
     register_transport("c31watch+", Watch)
     _watch_registered.append(Watch)
     return Watch
@@ -731,6 +757,15 @@ def _session(sim, plan, url, t, factory, outside0):
             blob = b"\x00".join(x for x in e.error_tuple if isinstance(x, bytes))
         except te.UnknownSmartMethod:
             outcome = "unknown-method"
+        except Violation as e:
+            # wiresim reports a read that can never return (e.g. a handler that answers nothing to
+            # malformed arguments); stalls are C29/C30's subject - here the client gives up
+            if e.oracle != "would_block" or sim.violation is not e:
+                raise
+            sim.violation = None
+            sim.probe("response_never_arrived")
+            outcome = "stall"
+            drop_connection()
         except (errors.BzrError, te.TransportError, ConnectionError, ValueError, TypeError, AssertionError, UnicodeError, IndexError, KeyError, AttributeError) as e:
             if sim.violation is not None:
                 raise sim.violation from None
